@@ -513,6 +513,7 @@ def observe(op, fault_at, kind):
         op.after_call()
         if INJ.fired is None:
             remove_cause(op.doc)
+        was_injected = INJ.fired is not None
         INJ.reset(None)
         INJ.active = True
         try:
@@ -522,7 +523,7 @@ def observe(op, fault_at, kind):
             INJ.active = False
             op.after_call()
             ref = getattr(op, "ref_output", None)
-            if ref is not None and INJ.fired is not None:
+            if ref is not None and was_injected:
                 out2 = op.output(res2)
                 rec["retry_same"] = out2 == ref
                 if out2 != ref:
